@@ -25,10 +25,10 @@ theorem inv_reachable (c : Cfg) (hn : 0 < c.n) (s : State) (h : Reachable c s) :
 
 /-! ### every output exactly once -/
 
-/-- no item raises ⇒ a finished (not abandoned) call returned normally and handed over exactly the
+/-- no item raises and every item can be pickled ⇒ a finished (not abandoned) call returned normally and handed over exactly the
 multiset of outputs the wrapped filter produces item by item -/
 theorem exactly_once (c : Cfg) (hn : 0 < c.n) (s : State) (hr : Reachable c s) (hd : s.main = .done)
-    (hab : s.abandoned = false) (hne : ∀ x ∈ c.items, x.err = none) :
+    (hab : s.abandoned = false) (hne : ∀ x ∈ c.items, x.err = none ∧ x.perr = none) :
     ∃ outs, outcome s = .ok outs ∧ outs.Perm (allOuts c) := exactly_once' c hn s hr hd hab hne
 
 /-- whenever the call returns normally nothing was dropped: all outputs were delivered and no item raised -/
@@ -43,10 +43,10 @@ theorem never_duplicated (c : Cfg) (hn : 0 < c.n) (s : State) (hr : Reachable c 
 
 /-! ### errors surface -/
 
-/-- some item raises ⇒ a finished (not abandoned) call raised, and what it raised is one of the
-filter's own errors -/
+/-- some item raises (or cannot be pickled: `Pickler`'s CobaException in the loader thread) ⇒ a finished (not
+abandoned) call raised, and what it raised is one of those errors -/
 theorem error_surfaces (c : Cfg) (hn : 0 < c.n) (s : State) (hr : Reachable c s) (hd : s.main = .done)
-    (hab : s.abandoned = false) (x : ItemSpec) (hx : x ∈ c.items) (hxe : x.err ≠ none) :
+    (hab : s.abandoned = false) (x : ItemSpec) (hx : x ∈ c.items) (hxe : x.err ≠ none ∨ x.perr ≠ none) :
     ∃ e outs, outcome s = .raised e outs ∧ e ∈ allErrs c := error_surfaces' c hn s hr hd hab x hx hxe
 
 /-- the call never raises anything but an error of the wrapped filter -/
@@ -66,8 +66,7 @@ theorem variant_decreases (c : Cfg) (s : State) (a : Action) (h : enabled c s a 
 
 /-- hence every schedule is finite: no run is longer than `mu (init c)` … -/
 theorem terminates (c : Cfg) (tr : List Action) (s : State) (h : runTrace c (init c) tr = some s) :
-    tr.length ≤ mu c (init c) := by
-  have := run_bounded' c (init c) s tr h; omega
+    tr.length ≤ mu c (init c) := terminates' c tr s h
 
 /-- … and a schedule that cannot be extended has finished the call (no fairness assumption needed) -/
 theorem reaches_done (c : Cfg) (hn : 0 < c.n) (tr : List Action) (s : State)
@@ -82,9 +81,7 @@ enabled in every state of that phase) and the call ends without raising, whateve
 theorem abandon_terminates (c : Cfg) (s : State) (hc : s.main = .consuming) :
     enabled c s .cAbandon = true ∧
     (∀ s', s'.main = .fin → enabled c s' .mDone = true) ∧
-    outcome (step c (step c s .cAbandon) .mDone) = .closed s.recv := by
-  refine ⟨by simp [enabled, hc], ?_, by simp [step, outcome]⟩
-  intro s' h; simp [enabled, h]
+    outcome (step c (step c s .cAbandon) .mDone) = .closed s.recv := abandon_terminates' c s hc
 
 /-! ### maxtasksperchild -/
 
@@ -103,6 +100,67 @@ theorem inproc_error_surfaces (items : List ItemSpec) (x : ItemSpec) (hx : x ∈
 
 theorem inproc_never_duplicated (items : List ItemSpec) :
     (inproc items).1.Sublist (items.flatMap (·.outs)) := inproc_sublist' items
+
+/-! ### several calls on one Multiprocessor object -/
+
+/-- every call starts from `init`, whatever the previous call left on the object … -/
+theorem call_starts_fresh (o : Obj) (c : Cfg) : startCall o c = init c := startCall_eq_init' o c
+
+/-- … so in a history of calls on one object the k-th call's outcome is its single-call outcome
+(and every single-call theorem above applies to it) -/
+theorem calls_independent (o : Obj) (calls : List (Cfg × List Action)) :
+    runHistory o calls = singleCalls calls := calls_independent' o calls
+
+/-- the reset is necessary: in the variant that keeps `_exceptions` across calls (object left with error 0 by an
+earlier call), a call on a stream for which the filter never raises ends by raising error 0, and the worker that
+retired at maxtasksperchild is not replaced (the schedule below is not even possible from `init`) -/
+theorem stale_exceptions_counterexample :
+    (runTrace staleCfg (startCallStale staleObj staleCfg) staleTrace).map (fun s => (s.main, outcome s))
+        = some (Phase.done, Outcome.raised 0 [7])
+      ∧ allErrs staleCfg = [] ∧ runTrace staleCfg (init staleCfg) staleTrace = none :=
+  stale_exceptions_counterexample'
+
+/-! ### put time-outs: an environment action that the current code never enables -/
+
+/-- the code passes no timeout to `put` ⇒ the system extended by "a timed put gives up" has exactly the runs of the
+base system, so nothing is ever dropped: every theorem above applies to `ReachableT` states -/
+theorem no_timeouts_no_drops (c : Cfg) (h : c.timeouts = false) (s : State) (hr : ReachableT c s) : Reachable c s :=
+  no_timeouts_no_drops' c h s hr
+
+/-- the termination measure also decreases on the extra action -/
+theorem variant_decreases_ext (c : Cfg) (s : State) (a : ActionT) (h : enabledT c s a = true) :
+    mu c (stepT c s a) < mu c s := mu_putTimeout' c s a h
+
+/-- with time-outs on the loader's put (and `Full` swallowed) a call can return normally with an output missing -/
+theorem timeouts_can_drop_counterexample :
+    (runTraceT toCfg (init toCfg) toTrace).map (fun s => (s.main, outcome s)) = some (Phase.done, Outcome.ok [1, 2])
+      ∧ allOuts toCfg = [1, 2, 3] := timeouts_can_drop'
+
+/-! ### CobaMultiprocessor around Multiprocessor -/
+
+/-- the empty-input guard looks at the first element but hands the inner Multiprocessor a stream that still yields
+everything, also when the input is a one-shot iterator; outputs and an early abandon pass through unchanged -/
+theorem wrapper_preserves_outputs {α} (it : List α) (boot : Nat → Bool) (o : Outcome) (outs : List Nat) :
+    wrapperInput it = it ∧
+    (o = .ok outs → wrapOutcome boot o = .ok outs) ∧ (o = .closed outs → wrapOutcome boot o = .closed outs) :=
+  ⟨wrapper_input' it, wrapper_preserves_outputs' boot o outs⟩
+
+/-- an error `e` of the inner call is re-raised unchanged unless it is one the wrapper turns into `CobaExit` -/
+theorem wrapper_error_translation (boot : Nat → Bool) (e : Nat) (outs : List Nat) :
+    wrapOutcome boot (.raised e outs) = (if boot e then .exit e outs else .raised e outs) :=
+  wrapper_error_translation' boot e outs
+
+/-- when none of the filter's own errors is of the translated kind (the fixed code: only the "bootstrapping phase"
+RuntimeError of a missing `__main__` guard is), the wrapper changes no outcome of any reachable state -/
+theorem wrapper_transparent (boot : Nat → Bool) (c : Cfg) (hn : 0 < c.n) (s : State) (hr : Reachable c s)
+    (hb : ∀ e ∈ allErrs c, boot e = false) :
+    wrapOutcome boot (outcome s) = (match outcome s with
+      | .ok o => .ok o | .closed o => .closed o | .raised e o => .raised e o) :=
+  wrapper_transparent' boot c hn s hr hb
+
+/-- the guard must pass on the re-chained stream: passing the original one-shot iterator loses the first item -/
+theorem wrapper_oneshot_counterexample :
+    wrapperInput [1, 2, 3] = [1, 2, 3] ∧ wrapperInputStale [1, 2, 3] = [2, 3] := wrapper_oneshot_counterexample'
 
 /-! ### the hypotheses are satisfiable: complete schedules observed on the real code
 (logged by the harness from `Multiprocessor.filter` under the controlled scheduler) -/
